@@ -135,9 +135,9 @@ Definition setter_tlv (am : amsg) (s : setter) : option (N * list byte) :=
       end
   | SUnknown ts => Some (AttrUnknownAttributes, unknown_value CUR_UNKNOWN_ESZ ts)
   | SMI key => Some (AttrMessageIntegrity,
-                     hmac_sha1 key (lpoke (am_raw am) 2 (be16 (u32 (am_length am + 24)))))
+                     hmac_sha1 key (lpoke (a_cut am) 2 (be16 (u32 (am_length am + 24)))))
   | SFP => Some (AttrFingerprint,
-                 be32 (fingerprint_value (lpoke (am_raw am) 2 (be16 (u32 (am_length am + 8))))))
+                 be32 (fingerprint_value (lpoke (a_cut am) 2 (be16 (u32 (am_length am + 8))))))
   end.
 
 Definition fits_add (am : amsg) (tv : N * list byte) : Prop :=
@@ -194,8 +194,12 @@ Proof.
     destruct (lenN r + 4 <=? _); [|discriminate]. injection H as <-. apply Hadd, Hfit.
   - injection H as <-. apply Hadd, Hfit.
   - destruct (a_has_fp am); [discriminate|]. injection H as <-.
+    assert (Hcut : a_cut am = am_raw am) by (unfold a_cut; apply take_all; lia).
+    rewrite Hcut in *.
     rewrite a_add_bump by (rewrite ?lenN_be16; try reflexivity; lia). apply Hadd, Hfit.
   - injection H as <-.
+    assert (Hcut : a_cut am = am_raw am) by (unfold a_cut; apply take_all; lia).
+    rewrite Hcut in *.
     rewrite a_add_bump by (rewrite ?lenN_be16; try reflexivity; lia). apply Hadd, Hfit.
 Qed.
 
